@@ -879,15 +879,18 @@ class AdapterLookupBase:
         result = None
         order = len(required)
         for registry in self._registry.ro:
-            byorder = registry._adapters
-            if order >= len(byorder):
+            try:
+                # Fetched in one step: another thread may be trimming
+                # the list (``unregister`` removes empty trailing
+                # entries) between a length check and the access.
+                components = registry._adapters[order]
+            except IndexError:
                 continue
 
             extendors = registry._v_lookup._extendors.get(provided)
             if not extendors:
                 continue
 
-            components = byorder[order]
             result = _lookup(components, required, extendors, name, 0,
                              order)
             if result is not None:
@@ -915,13 +918,13 @@ class AdapterLookupBase:
         order = len(required)
         result = {}
         for registry in reversed(self._registry.ro):
-            byorder = registry._adapters
-            if order >= len(byorder):
+            try:
+                components = registry._adapters[order]  # see above
+            except IndexError:
                 continue
             extendors = registry._v_lookup._extendors.get(provided)
             if not extendors:
                 continue
-            components = byorder[order]
             _lookupAll(components, required, extendors, result, 0, order)
 
         self._subscribe(*required)
@@ -936,8 +939,9 @@ class AdapterLookupBase:
         order = len(required)
         result = []
         for registry in reversed(self._registry.ro):
-            byorder = registry._subscribers
-            if order >= len(byorder):
+            try:
+                components = registry._subscribers[order]  # see above
+            except IndexError:
                 continue
 
             if provided is None:
@@ -947,7 +951,7 @@ class AdapterLookupBase:
                 if extendors is None:
                     continue
 
-            _subscriptions(byorder[order], required, extendors, '',
+            _subscriptions(components, required, extendors, '',
                            result, 0, order)
 
         self._subscribe(*required)
